@@ -12,7 +12,6 @@ package vsync
 
 import (
 	"fmt"
-	"hash/fnv"
 	"runtime"
 	"sort"
 	"strings"
@@ -75,6 +74,7 @@ type Thread struct {
 	s      *Sched
 	auto   bool
 	nkids  int
+	h      uint64 // hash of the thread's causal (happens-before) history
 }
 
 // Point is one recorded choice point of an execution.
@@ -112,6 +112,116 @@ type Sched struct {
 
 	objIDs map[any]int
 	waited time.Duration
+
+	// happens-before state caching
+	chanH    map[*hchan]uint64
+	objH     map[any]uint64
+	Visited  map[uint64]int8 // state key -> largest remaining preemption budget explored from it (shared across executions)
+	Bound    int
+	preempts int
+	Pruned   bool
+	NoTrace  bool
+}
+
+func mix(a, b uint64) uint64 {
+	x := a*0x9e3779b97f4a7c15 ^ (b + 0x7f4a7c159e3779b9 + (a << 6) + (a >> 2))
+	x ^= x >> 30
+	x *= 0xbf58476d1ce4e5b9
+	x ^= x >> 27
+	x *= 0x94d049bb133111eb
+	x ^= x >> 31
+	return x
+}
+
+func hashStr(s string) uint64 {
+	h := uint64(14695981039346656037)
+	for i := 0; i < len(s); i++ {
+		h ^= uint64(s[i])
+		h *= 1099511628211
+	}
+	return h
+}
+
+// applyHB folds the operation th is about to execute into the happens-before
+// hashes of the thread and of the objects it touches.
+func (s *Sched) applyHB(th *Thread, partner *Thread) {
+	o := &th.op
+	switch o.kind {
+	case opStart:
+		// h was seeded at spawn
+	case opYield:
+		th.h = mix(th.h, hashStr(o.label))
+	case opQuiesce:
+		// quiescence depends on every thread: order it after all of them
+		h := th.h
+		for _, t := range s.threads {
+			h = mix(h, t.h)
+		}
+		th.h = mix(h, 0x71)
+	case opLock:
+		if o.mu != nil {
+			th.h = mix(mix(th.h, o.mu.hb), 1)
+			o.mu.hb = th.h
+		} else {
+			th.h = mix(mix(th.h, o.rw.hb), 2)
+			o.rw.hb = th.h
+		}
+	case opRLock:
+		th.h = mix(mix(th.h, o.rw.hb), 3)
+		o.rw.hb = th.h
+	case opWGWait:
+		th.h = mix(mix(th.h, o.wg.hb), 4)
+	case opSelect:
+		// a select reads the state of all its channels and writes the chosen one
+		h := th.h
+		for _, c := range o.cases {
+			if c.ch != nil {
+				h = mix(h, s.chanH[c.ch]+uint64(c.ch.closed)<<40+uint64(c.ch.qcount)<<20)
+			}
+		}
+		h = mix(h, uint64(o.chosen+2))
+		if partner != nil {
+			ph := partner.h
+			for _, c := range partner.op.cases {
+				if c.ch != nil {
+					ph = mix(ph, s.chanH[c.ch]+uint64(c.ch.closed)<<40+uint64(c.ch.qcount)<<20)
+				}
+			}
+			ph = mix(ph, uint64(partner.op.chosen+2))
+			j := mix(h, ph)
+			th.h, partner.h = mix(j, 5), mix(j, 6)
+			s.chanH[o.cases[o.chosen].ch] = j
+			return
+		}
+		th.h = h
+		if o.chosen >= 0 {
+			s.chanH[o.cases[o.chosen].ch] = h
+		}
+	}
+}
+
+// stateKey hashes the happens-before history of every thread (ordered by
+// name, which is stable across equivalent interleavings) and the identity of
+// the running thread.
+func (s *Sched) stateKey() uint64 {
+	type nh struct {
+		n  string
+		h  uint64
+		st tstate
+	}
+	v := make([]nh, 0, len(s.threads))
+	for _, t := range s.threads {
+		v = append(v, nh{t.Name, t.h, t.state})
+	}
+	sort.Slice(v, func(i, j int) bool { return v[i].n < v[j].n })
+	k := uint64(len(v))
+	for _, x := range v {
+		k = mix(mix(k, hashStr(x.n)), x.h+uint64(x.st))
+	}
+	if s.cur != nil {
+		k = mix(k, hashStr(s.cur.Name))
+	}
+	return mix(k, uint64(time.Now().UnixNano()))
 }
 
 var active atomic.Pointer[Sched]
@@ -128,6 +238,8 @@ func New(prefix []Point) *Sched {
 		Quantum:   time.Millisecond,
 		StateSigs: map[uint64]struct{}{},
 		objIDs:    map[any]int{},
+		chanH:     map[*hchan]uint64{},
+		objH:      map[any]uint64{},
 	}
 }
 
@@ -384,7 +496,16 @@ func (s *Sched) Run(main func()) {
 				break
 			}
 		}
-		s.recordState(en)
+		key := s.stateKey()
+		s.StateSigs[key] = struct{}{}
+		if s.Visited != nil && len(s.Points) >= len(s.prefix) {
+			rem := int8(s.Bound - s.preempts)
+			if old, ok := s.Visited[key]; ok && old >= rem {
+				s.Pruned = true
+				break
+			}
+			s.Visited[key] = rem
+		}
 		idx := 0
 		if len(en) > 1 {
 			idx = s.nextChoice(len(en), false, curEnabled, 0)
@@ -393,6 +514,9 @@ func (s *Sched) Run(main func()) {
 				break
 			}
 			s.Points[len(s.Points)-1].Tid = en[idx].ID
+			if curEnabled && idx > 0 {
+				s.preempts++
+			}
 		}
 		th := en[idx]
 		// resolve the operation's effect while the world is still
@@ -413,7 +537,10 @@ func (s *Sched) Run(main func()) {
 				partner.op.chosen = opts[k].pidx
 			}
 		}
-		s.Trace = append(s.Trace, s.describe(th))
+		s.applyHB(th, partner)
+		if !s.NoTrace {
+			s.Trace = append(s.Trace, s.describe(th))
+		}
 		s.cur = th
 		th.state = tsRunning
 		th.resume <- struct{}{}
@@ -421,7 +548,9 @@ func (s *Sched) Run(main func()) {
 			// unbuffered rendezvous: th blocks natively in its (single unmasked)
 			// case, then the partner completes it; one atomic transition.
 			synctest.Wait()
-			s.Trace = append(s.Trace, "+"+s.describe(partner))
+			if !s.NoTrace {
+				s.Trace = append(s.Trace, "+"+s.describe(partner))
+			}
 			partner.state = tsRunning
 			partner.resume <- struct{}{}
 		}
@@ -438,22 +567,6 @@ func (s *Sched) Run(main func()) {
 	synctest.Wait()
 }
 
-func (s *Sched) recordState(en []*Thread) {
-	h := fnv.New64a()
-	for _, th := range s.threads {
-		if th.state == tsParked {
-			fmt.Fprintf(h, "%s|", s.describe(th))
-		} else {
-			fmt.Fprintf(h, "%s:%d|", th.Name, th.state)
-		}
-	}
-	fmt.Fprintf(h, "L%d", len(s.Log))
-	if n := len(s.Log); n > 0 {
-		h.Write([]byte(s.Log[n-1]))
-	}
-	s.StateSigs[h.Sum64()] = struct{}{}
-}
-
 func (s *Sched) spawn(parent *Thread, name string, fn func()) {
 	s.mu.Lock()
 	th := &Thread{ID: len(s.threads), s: s, resume: make(chan struct{})}
@@ -463,6 +576,12 @@ func (s *Sched) spawn(parent *Thread, name string, fn func()) {
 	}
 	th.Name = name
 	th.state = tsRunning
+	if parent != nil {
+		th.h = mix(mix(parent.h, hashStr(name)), 7)
+		parent.h = mix(parent.h, 8)
+	} else {
+		th.h = hashStr(name)
+	}
 	s.threads = append(s.threads, th)
 	s.mu.Unlock()
 	go func() {
@@ -539,8 +658,31 @@ func Choose(n int) int {
 		s.Diverged = "env choice out of range"
 		return 0
 	}
+	th.h = mix(mix(th.h, 9), uint64(c))
 	return c
 }
+
+// Touch records a write access of the calling thread to a harness-level
+// shared object, so that happens-before caching orders it with the other
+// accesses to the same object.
+func Touch(obj any) {
+	s, th := current()
+	if s == nil {
+		return
+	}
+	th.h = mix(mix(th.h, s.objH[obj]), 10)
+	s.objH[obj] = th.h
+}
+
+// LogOrdered is Logf for observations whose relative order across threads is
+// used by an oracle: it orders the calling thread after every earlier
+// LogOrdered call.
+func LogOrdered(format string, a ...any) {
+	Touch(logObj)
+	Logf(format, a...)
+}
+
+var logObj = new(int)
 
 // Logf appends an observation to the execution log.
 func Logf(format string, a ...any) {
